@@ -60,6 +60,9 @@ def configs(name, rng, d, n_classes, thorough):
         for init in ['identity', 'covariance', 'random', 'array']:
             out.append({'init': spd(rng, d) if init == 'array' else init, 'diagonal': False})
         out.append({'init': spd_int(rng, d), 'diagonal': False})
+        # the diagonal variant with every initial matrix (only its diagonal is read): the result is a diagonal PSD matrix
+        for init in ['identity', 'covariance', 'random', 'array']:
+            out.append({'init': spd(rng, d) if init == 'array' else init, 'diagonal': True, '_always': True})
     elif name == 'LFDA':
         for emb in ['weighted', 'orthonormalized', 'plain']:
             for k in [None, 1, 2, d - 1, d, d + 2]:
@@ -189,6 +192,9 @@ def run(R, tier, seed, driver_ok):
                         # the documented failure clause of SDML (C13): the graphical-lasso solver could not produce a finite SPD matrix
                         R.count('SDML-solver-failure (RuntimeError, judged by C13)')
                         continue
+                    if name.startswith('MMC') and cfg.get('diagonal') and isinstance(e, ValueError) and 'NaN' in str(e):
+                        R.count('MMC-diagonal-NaN-objective (ValueError, the documented failure clause of C14)')
+                        continue
                     if may_reject and isinstance(e, ValueError):
                         R.count('lda-init-overask-rejected (ValueError)')
                         continue
@@ -197,6 +203,10 @@ def run(R, tier, seed, driver_ok):
                 warned = any('reduces the dimension' in str(w.message) for w in wl)
                 k_exp, lowrank_ok = expected_rows(name, cfg, dd)
                 check_model(R, name, est, ret, X, dd, k_exp, lowrank_ok, warned, case)
+                if cfg.get('diagonal'):
+                    Md = est.get_mahalanobis_matrix()
+                    if np.abs(Md - np.diag(np.diag(Md))).max() > 0:
+                        R.violation(f'{name}/diagonal-not-diagonal', f'{name}(diagonal=True, init={desc.get("init")}): the learned matrix is not diagonal', case)
                 # refit the same object on data of another dimensionality: n_features_in_ must follow
                 if rng.rand() < (0.5 if not thorough else 1.0) and not any(isinstance(v, np.ndarray) for v in cfg.values()) \
                         and cfg.get('n_components') is None and cfg.get('init') != 'lda':
